@@ -30,7 +30,7 @@ def opOfJson (j : Json) : Except String Op := do
 
 def jSd (sd : SetData) : Json := Json.mkObj [
   ("items", toJson sd.items), ("fully", toJson sd.fully), ("count", jOptInt sd.count),
-  ("added", toJson sd.added), ("removed", toJson sd.removed), ("absent", toJson sd.absent)]
+  ("added", toJson sd.added), ("removed", toJson sd.removed), ("absent", toJson sd.absent), ("dirty", toJson sd.dirty)]
 
 def handle (j : Json) : Except String Json := do
   if (j.getObjValAs? String "model").toOption == some "session" then PonyVerif.Drive.C09.handle j else
